@@ -8,6 +8,15 @@ var commonAssumptions = []string{
 }
 
 func init() {
+	register("C10", &propDef{
+		Run: runC10,
+		Info: propInfo{
+			Explanation: "Sibling rule over every module type that owns a read deadline (found by its SetReadDeadline method; floor 5): SetReadDeadline hands its argument on every path to a level-triggered deadline.Deadline held in a field, or to another owner it also reads from; SetDeadline reaches it with the same argument; no function reachable from the type's Read methods receives from a one-shot timer channel (time.Timer.C, time.After); each non-delegating Read tests Done() without blocking first, every blocking wait on a data channel of the owner is a select with a Done() case dominated by that pre-check, every Done() branch returns a timeout-class error (value analysis of Timeout()), and timeout-class errors are returned only inside Done() branches (no spurious timeout). The Deadline bookkeeping itself (C09 rules) is included. When the timeout fires in wall-clock terms is not decided.",
+			RuleText:    "one obligation per owner type (R1) and per Read method (R2); sites are calls, selects and returns; non-trivial = matched at least one site",
+			Assumptions: append([]string{"wrapped net.Conn implementations outside the module honour their own deadlines"}, commonAssumptions...),
+		},
+		Thorough: []LoadCfg{{GOOS: "js", GOARCH: "wasm"}, {GOOS: "windows", GOARCH: "amd64"}},
+	})
 	register("C11", &propDef{
 		Run: runC11,
 		Info: propInfo{
